@@ -213,6 +213,13 @@ func replay(sub string, raw json.RawMessage) ([]h.Failure, error) {
 		}
 		return checkVarInputText(p.Src), nil
 	}
+	if sub == "handler" {
+		var c handlerCase
+		if err := json.Unmarshal(raw, &c); err != nil {
+			return nil, err
+		}
+		return checkHandler(c), nil
+	}
 	if sub == "sequence" {
 		var c seqCase
 		if err := json.Unmarshal(raw, &c); err != nil {
